@@ -551,6 +551,7 @@ def Op.addr : Op ν → Option Nat
   | .listGenes i => some i
   | .diff i _ => some i
   | .assign i _ => some i
+  | .stats i => some i
 
 theorem step_noid {env : Env ν} {st : Store ν} {op : Op ν} {i : Nat} (hop : op.addr = some i)
     (hi : st.genomes[i]? = none) : step env st op = (st, .bad) := by
@@ -596,6 +597,13 @@ theorem step_replicate_raised {env : Env ν} {st : Store ν} {i : Nat} {muts : L
     (hi : st.genomes[i]? = some p) (hr : replicate env st.calls st.draws p muts inh = .raised k d) :
     step env st (.replicate i muts inh) = (⟨st.genomes, k, d⟩, .raised) := by
   simp [step, hi, hr]
+
+theorem step_stats {env : Env ν} {st : Store ν} {i : Nat} {g : Genome ν}
+    (hi : st.genomes[i]? = some g) : step env st (.stats i) = (st, .statistics (stats g)) := by
+  simp [step, hi]
+
+theorem step_stats_store {env : Env ν} {st : Store ν} {i : Nat} : (step env st (.stats i)).1 = st := by
+  simp only [step]; split <;> rfl
 
 theorem step_assign {env : Env ν} {st : Store ν} {i : Nat} {a : Assign} {g : Genome ν}
     (hi : st.genomes[i]? = some g) :
@@ -706,6 +714,7 @@ theorem step_frame_ev (env : Env ν) (st : Store ν) (op : Op ν) (j : Nat) (g :
   | validate i => rw [step_query (Or.inl ⟨i, rfl⟩)]; exact ⟨g, hj, Or.inl (Evolves.refl env g), fun _ => rfl⟩
   | listGenes i => rw [step_query (Or.inr (Or.inl ⟨i, rfl⟩))]; exact ⟨g, hj, Or.inl (Evolves.refl env g), fun _ => rfl⟩
   | diff i j' => rw [step_query (Or.inr (Or.inr ⟨i, j', rfl⟩))]; exact ⟨g, hj, Or.inl (Evolves.refl env g), fun _ => rfl⟩
+  | stats i => rw [step_stats_store]; exact ⟨g, hj, Or.inl (Evolves.refl env g), fun _ => rfl⟩
   | assign i a =>
     cases hi : st.genomes[i]? with
     | none => rw [step_noid rfl hi]; exact ⟨g, hj, Or.inl (Evolves.refl env g), fun _ => rfl⟩
@@ -760,6 +769,7 @@ theorem step_frame (env : Env ν) (st : Store ν) (op : Op ν) (j : Nat) (g : Ge
       | validate _ => simp [Op.target] at ht
       | listGenes _ => simp [Op.target] at ht
       | diff _ _ => simp [Op.target] at ht
+      | stats _ => simp [Op.target] at ht
     · have := hfr ht; subst this; exact ⟨rfl, rfl, rfl, rfl⟩
   refine ⟨g', h, ?_, hfr, ?_, fun hm => ⟨(hsame hm).1, (hsame hm).2.1⟩⟩
   · intro G hG
@@ -971,6 +981,7 @@ theorem step_unauthorised {env : Env ν} {st : Store ν} {op : Op ν} {i : Nat} 
     | validate _ => simp [Op.mutator] at ht
     | listGenes _ => simp [Op.mutator] at ht
     | diff _ _ => simp [Op.mutator] at ht
+    | stats _ => simp [Op.mutator] at ht
   · exact ⟨g', hg', (hsame ht).1⟩
 
 /-- Whatever is assigned to the gate attributes in between: if at every moment `add_gene` / `mutate` /
@@ -1189,6 +1200,7 @@ theorem step_wf (env : Env ν) (st : Store ν) (op : Op ν) (hw : WF st) : WF (s
   | validate i => rw [step_query (Or.inl ⟨i, rfl⟩)]; exact hw
   | listGenes i => rw [step_query (Or.inr (Or.inl ⟨i, rfl⟩))]; exact hw
   | diff i j => rw [step_query (Or.inr (Or.inr ⟨i, j, rfl⟩))]; exact hw
+  | stats i => rw [step_stats_store]; exact hw
   | assign i a =>
     cases hi : st.genomes[i]? with
     | none => rw [step_noid rfl hi]; exact hw
@@ -1711,6 +1723,7 @@ theorem step_keysEq (env : Env ν) (st : Store ν) (op : Op ν) (hw : KeysEqS st
   | validate i => rw [step_query (Or.inl ⟨i, rfl⟩)]; exact hw
   | listGenes i => rw [step_query (Or.inr (Or.inl ⟨i, rfl⟩))]; exact hw
   | diff i j => rw [step_query (Or.inr (Or.inr ⟨i, j, rfl⟩))]; exact hw
+  | stats i => rw [step_stats_store]; exact hw
   | assign i a =>
     cases hi : st.genomes[i]? with
     | none => rw [step_noid rfl hi]; exact hw
